@@ -384,6 +384,157 @@ set_option maxRecDepth 20000 in
 /-- non-vacuity of the hypothesis of `instances_change_only_for_presented_id`: A's report changes `instances[X]` -/
 example : (dispatch ⟨3⟩ stB ipA 2222 (report idX) 2024).1.instances[idNat idX]? ≠ stB.instances[idNat idX]? := by decide
 
+/-! ## the probe queue -/
+
+theorem report_queue (mr : Int) (st : AbsState) (hinv : Inv st) (now : Int) (id : Nat) (a : Addr) (hok : a.PortOk) (qp : Int)
+    (info? : Option Fields) :
+    ((UC.report zeroInfo mr ⟨a, qp, id, info?⟩).run st now).1.queue = st.queue ∨
+    ((UC.report zeroInfo mr ⟨a, qp, id, info?⟩).run st now).1.queue =
+      st.queue ++ [⟨st.nextId, ⟨a, a.port, .port, 0, mr⟩, now, none⟩] := by
+  have h := congrArg Prod.fst (report_refines mr st hinv now id a qp info?)
+  dsimp only at h
+  rw [h]
+  unfold reportSpec
+  have key : ∀ (info : Fields) (base : Server), base.addr = a →
+      (if (ReporterSpec.reportedServer base info now).2 = true then
+          st.queue ++ [⟨st.nextId, ⟨(ReporterSpec.reportedServer base info now).1.addr, (ReporterSpec.reportedServer base info now).1.addr.port, .port, 0, mr⟩, now, none⟩]
+        else st.queue) = st.queue ∨
+      (if (ReporterSpec.reportedServer base info now).2 = true then
+          st.queue ++ [⟨st.nextId, ⟨(ReporterSpec.reportedServer base info now).1.addr, (ReporterSpec.reportedServer base info now).1.addr.port, .port, 0, mr⟩, now, none⟩]
+        else st.queue) = st.queue ++ [⟨st.nextId, ⟨a, a.port, .port, 0, mr⟩, now, none⟩] := by
+    intro info base hb
+    have ha : (ReporterSpec.reportedServer base info now).1.addr = a := by
+      unfold ReporterSpec.reportedServer; dsimp only; split <;> exact hb
+    rw [ha]
+    split
+    · exact Or.inr rfl
+    · exact Or.inl rfl
+  cases info? with
+  | none => exact Or.inl rfl
+  | some info =>
+    dsimp only
+    cases hr : st.servers[a.key]? with
+    | some r =>
+      dsimp only
+      have hrow := hinv.1 _ _ hr
+      exact key info r.svr (Addr.key_inj hrow.2 hok hrow.1)
+    | none =>
+      dsimp only
+      by_cases hq : qp < 1 ∨ qp > 65535
+      · rw [if_pos hq]; exact Or.inl rfl
+      · rw [if_neg hq]; exact key info (ReporterSpec.freshServer a qp) rfl
+
+theorem remove_queue (st : AbsState) (hinv : Inv st) (now : Int) (id : Nat) (a : Addr) (hok : a.PortOk) :
+    ((UC.remove id a).run st now).1.queue = st.queue := by
+  rw [remove_refines st hinv now id a hok]
+  split
+  · split <;> rfl
+  · rfl
+
+theorem renew_queue (st : AbsState) (hinv : Inv st) (now : Int) (id : Bytes) (srcIp : Nat) :
+    ((UC.renew (idNat id) srcIp).run st now).1.queue = st.queue := by
+  rw [renew_refines st hinv srcIp now id ⟨0⟩ 0]
+  unfold ReporterSpec.absStep
+  dsimp only
+  split
+  · rfl
+  · split
+    · rfl
+    · split <;> rfl
+
+/-- **the queue after one datagram, in closed form**: for every state with the store invariant, every payload, source
+and clock value, the probe queue after `dispatch` is the queue before, or the queue before with ONE item appended: the
+port-discovery probe (goal `port`, retries 0, the configured retry budget, ready now, no expiry, the next fresh id) for
+an address `a` whose IP is the datagram's source IP and whose port is in 1..65535.  Nothing is ever removed from the
+queue or reordered by the reporter. -/
+theorem dispatch_queue (cfg : Cfg) (st : AbsState) (h : Inv st) (srcIp srcPort : Nat) (payload : Bytes) (now : Int) :
+    (dispatch cfg st srcIp srcPort payload now).1.queue = st.queue ∨
+    ∃ a : Addr, a.ip = srcIp ∧ a.PortOk ∧
+      (dispatch cfg st srcIp srcPort payload now).1.queue =
+        st.queue ++ [⟨st.nextId, ⟨a, a.port, .port, 0, cfg.maxRetries⟩, now, none⟩] := by
+  unfold dispatch
+  cases payload with
+  | nil => exact Or.inl rfl
+  | cons t rest =>
+    dsimp only
+    split
+    · unfold handleHeartbeat
+      cases parseInstanceID (t :: rest) with
+      | none => exact Or.inl rfl
+      | some p =>
+        obtain ⟨id, rest'⟩ := p
+        dsimp only
+        cases parseHeartbeatParams rest' with
+        | none => exact Or.inl rfl
+        | some fields =>
+          dsimp only
+          split
+          · exact Or.inl rfl
+          · cases ha : parseAddr srcIp fields with
+            | none => exact Or.inl rfl
+            | some p =>
+              obtain ⟨a, qp⟩ := p
+              have hok := parseAddr_ok ha
+              dsimp only
+              split
+              · exact Or.inl (remove_queue st h now (idNat id) a hok.2)
+              · rcases report_queue cfg.maxRetries st h now (idNat id) a hok.2 qp (infoOf fields) with hq | hq
+                · exact Or.inl hq
+                · exact Or.inr ⟨a, hok.1, hok.2, hq⟩
+    · split
+      · unfold handleKeepalive
+        split
+        · exact Or.inl rfl
+        · rename_i id _ _
+          exact Or.inl (renew_queue st h now id srcIp)
+      · split
+        · exact Or.inl rfl
+        · split
+          · exact Or.inl rfl
+          · exact Or.inl rfl
+
+/-- **C05, the probe queue (the queue frame the reviewer found only sampled).**  For every state satisfying the store
+invariant, every payload, every source and every clock value: a queue item that is in the probe queue after `dispatch`
+and was not there before — i.e. every probe that handling a datagram from source IP `srcIp` enqueues — is a probe for an
+address whose IP is `srcIp`.  So reporter traffic from one IP can never make the master probe (and, through a probe
+outcome, change or delist) a server of another IP; together with `reporter_touches_only_source_ip` (server rows) and
+`instances_change_only_for_presented_id` (instance table) this frames all three components of the state.  The stronger
+closed form (at most one item, appended at the end, nothing removed) is `dispatch_queue`. -/
+theorem reporter_enqueues_only_for_source_ip (cfg : Cfg) (st : AbsState) (h : Inv st) (srcIp srcPort : Nat)
+    (payload : Bytes) (now : Int) (q : QItem)
+    (hnew : q ∈ (dispatch cfg st srcIp srcPort payload now).1.queue) (hold : q ∉ st.queue) :
+    q.probe.addr.ip = srcIp := by
+  rcases dispatch_queue cfg st h srcIp srcPort payload now with hq | ⟨a, hip, _, hq⟩
+  · rw [hq] at hnew; exact absurd hnew hold
+  · rw [hq] at hnew
+    rcases List.mem_append.1 hnew with hm | hm
+    · exact absurd hm hold
+    · rw [List.mem_singleton.1 hm]; exact hip
+
+/-- the reporter never removes a queued probe: everything queued before is still queued after -/
+theorem reporter_keeps_queued (cfg : Cfg) (st : AbsState) (h : Inv st) (srcIp srcPort : Nat)
+    (payload : Bytes) (now : Int) (q : QItem) (hq : q ∈ st.queue) :
+    q ∈ (dispatch cfg st srcIp srcPort payload now).1.queue := by
+  rcases dispatch_queue cfg st h srcIp srcPort payload now with e | ⟨a, _, _, e⟩
+  · rw [e]; exact hq
+  · rw [e]; exact List.mem_append_left _ hq
+
+set_option maxRecDepth 20000 in
+/-- non-vacuity of `reporter_enqueues_only_for_source_ip`: the empty store has the invariant, and the accepted first
+report of B's server (from 1.1.1.1:1111 at clock 1000) DOES enqueue a probe — the queue goes from empty to the one
+port-discovery probe for 1.1.1.1:10480 — so the hypotheses `hnew`/`hold` are met by a real item, whose IP is B's -/
+example : (dispatch ⟨3⟩ {} ipB 1111 (report idX) 1000).2 = .reply (heartbeatReply idX ipB 1111) ∧
+    (dispatch ⟨3⟩ {} ipB 1111 (report idX) 1000).1.queue = [⟨0, ⟨⟨ipB, 10480⟩, 10480, .port, 0, 3⟩, 1000, none⟩] ∧
+    (⟨0, ⟨⟨ipB, 10480⟩, 10480, .port, 0, 3⟩, 1000, none⟩ : QItem) ∉ ({} : AbsState).queue := by
+  refine ⟨by decide, by decide, ?_⟩
+  intro hm; cases hm
+
+set_option maxRecDepth 20000 in
+/-- and a second datagram, from A, in the state B's report left: A's report enqueues a probe for A's address only, B's
+item stays where it was -/
+example : (dispatch ⟨3⟩ stB ipA 2222 (report idY) 1256).1.queue =
+    stB.queue ++ [⟨1, ⟨⟨ipA, 10480⟩, 10480, .port, 0, 3⟩, 1256, none⟩] ∧ stB.queue.length = 1 := by decide
+
 /-! ## IPv6 sources (`Model/Heartbeat6.lean`)
 
 `dispatch` takes the source as a number (four bytes).  A datagram from an IPv6 source that is not IPv4-mapped
